@@ -104,6 +104,7 @@ pub fn run(tier: Tier) -> i32 {
         let t1 = call_table([1, 1, 1]);
         cs.push(mk("equal-prios-n3", &t1, al(&[0, 1, 2, 3, 5, 6], &[9], vec![Tree::lit(1), Tree::var("x"), Tree::var("y")]), vec![(3, 0), (3, 1)], call_subsets, vec![0]));
     }
+    deep_call_families(tier, &mut rep);
     for c in cs {
         let raw = run_campaign(&c, &mut rep, "C08", None);
         // count call-form texts for non-vacuity
@@ -142,4 +143,88 @@ fn shrink_and_report_calls(raw: Vec<RawViolation>, table: &Arc<Table>, rep: &mut
             case: serde_json::json!({"engine": "tree-text", "table": table.describe(), "text": v.text, "witness": witness, "pipe": format!("{:?}", v.pipe)}),
         });
     }
+}
+
+/// "to any depth": deterministic families with calls nested up to 100 levels (in the first and in
+/// the second argument) and up to 200 redundant parentheses inside either argument / around an
+/// inner call; oracle: the reference parser's tree
+fn deep_call_families(tier: Tier, rep: &mut Report) {
+    let table = call_table([0, 1, 2]);
+    let max_parens = if tier.thorough() { 200 } else { 132 };
+    let max_nest = if tier.thorough() { 100 } else { 70 };
+    let mut texts: Vec<(String, String)> = Vec::new();
+    let par = |n: usize, inner: &str| format!("{}{inner}{}", "(".repeat(n), ")".repeat(n));
+    for n in 0..=max_parens {
+        if !tier.thorough() && n > 8 && !(60..=68).contains(&n) && !(124..=132).contains(&n) && n % 16 != 0 {
+            continue;
+        }
+        texts.push((format!("parens-in-2nd-arg-{n}"), format!("mx(y, {} + 1) * 2", par(n, "x"))));
+        texts.push((format!("parens-in-1st-arg-{n}"), format!("pw({} - 1, y) / 2", par(n, "x"))));
+        texts.push((format!("parens-around-inner-call-in-2nd-arg-{n}"), format!("av(y, {})", par(n, "mn(x,2)"))));
+        texts.push((format!("parens-around-inner-call-in-1st-arg-{n}"), format!("av({}, y) - x", par(n, "mx(x,2)"))));
+        texts.push((format!("parens-around-whole-call-{n}"), format!("1 + {}", par(n, "mx(x, y)"))));
+        texts.push((format!("call-under-unary-with-parens-{n}"), format!("f({}) mn -{}", par(n, "mx(x, 1)"), par(n, "pw(2, y)"))));
+    }
+    for d in 1..=max_nest {
+        texts.push((format!("nested-in-2nd-arg-{d}"), format!("{}x{}", "mx(1,".repeat(d), ")".repeat(d))));
+        texts.push((format!("nested-in-1st-arg-{d}"), format!("{}x{}", "mx(".repeat(d), ",1)".repeat(d))));
+        texts.push((format!("nested-alternating-{d}"), {
+            let mut s = "x".to_string();
+            for i in 0..d {
+                s = if i % 2 == 0 { format!("av(y, {s})") } else { format!("pw({s}, 2)") };
+            }
+            s
+        }));
+        texts.push((format!("nested-both-args-{d}"), {
+            // comb: mx(mn(1,2), mx(mn(1,2), ... x))
+            let mut s = "x".to_string();
+            for _ in 0..d.min(40) {
+                s = format!("mx(mn(1,y), {s})");
+            }
+            s
+        }));
+    }
+    let pipes = [Pipe::P, Pipe::W, Pipe::D];
+    let accs = par_ranges(
+        texts.len() as u64,
+        1,
+        || {
+            install_panic_hook();
+            set_table(&table);
+        },
+        |st, en, acc| {
+            for i in st..en {
+                let (name, text) = &texts[i as usize];
+                let tree = match crate::spec::read(text, &table, crate::spec::LitKind::Sym) {
+                    crate::spec::SpecResult::Ok(t) => t,
+                    o => {
+                        println!("MACHINERY-FAILURE property=C08 family text {name} not well-formed for the reference: {o:?}");
+                        std::process::exit(2);
+                    }
+                };
+                acc.states += 1;
+                acc.nontrivial += 1;
+                acc.evaluations += 1;
+                for &p in &pipes {
+                    acc.transitions += 1;
+                    if let Some((e, o)) = judge(p, &tree, text, &table) {
+                        let cut = |s: &str| s.chars().take(200).collect::<String>();
+                        let kind: String = name.trim_end_matches(|c: char| c.is_ascii_digit()).to_string();
+                        acc.violate(Violation {
+                            signature: format!("{p:?}:deep-family:{kind}"),
+                            what: format!("family {name} pipeline {p:?} on {:?}: expected {} observed {}", cut(text), cut(&e), cut(&o)),
+                            case: serde_json::json!({"engine": "tree-text", "table": table.describe(), "text": text, "pipe": format!("{p:?}")}),
+                        });
+                    }
+                }
+                if i % 101 == 0 {
+                    acc.sample(serde_json::json!({"family": name, "text_prefix": text.chars().take(70).collect::<String>()}));
+                }
+            }
+        },
+    );
+    for a in accs {
+        rep.absorb(a);
+    }
+    rep.bounds.push(format!("deep call families: {} texts (calls nested up to {max_nest} levels in either argument; up to {max_parens} redundant parentheses inside arguments / around calls), pipes {pipes:?}: complete", texts.len()));
 }
